@@ -680,7 +680,9 @@ impl<S: KSub> System for KSys<S> {
             battery.push(op(K_FL, p, 0));
             battery.push(op(K_FLEBY, p, 0));
         }
-        let mut v = vec![battery.clone()];
+        let mut rev = battery.clone();
+        rev.reverse();
+        let mut v = vec![battery.clone(), rev];
         let mut with = |first: u32| {
             let mut h = vec![first];
             h.extend(battery.iter().copied());
